@@ -69,4 +69,3 @@ func VfC20_Requests() {
 	}
 }
 
-func vfSlotOfKey(key string) int { return int(crc16(hashtag([]byte(key)))) & (slotNum - 1) }
